@@ -194,7 +194,17 @@ def bindOk (tb : Table) (c : Cli) (kind : String) (payload : Bytes) : Bool :=
 
 def world (tb : Table) (c : Cli) (ver help : Bytes) : World DVal :=
   { ops := { asBool := (·.truthy), strBytes := (·.str) }
-    null := { truthy := false, body := .ok [110, 117, 108, 108] }
+    -- the value `null` of `--null-input`.  Its rendering depends on the output format and on the
+    -- colour option; it is only ever printed when no filter is given (`Filter::default()` = identity),
+    -- and then the harness has run that identity on `null` and reports the rendering in its trace.
+    null :=
+      let dflt : DVal := { truthy := false, body := .ok [110, 117, 108, 108] }
+      if c.filter.isNone then
+        match tb.traces.findSome? (fun (k, tr) =>
+            if k.2.isNone then tr.evs.findSome? (fun e => match e with | .out v => some v | .pull => none) else none) with
+        | some v => v
+        | none => dflt
+      else dflt
     tty := {}
     body := fun _ _ v => v.body
     strVal := fun s => { str := some s.toUTF8.toList, path := some s.toUTF8.toList }
